@@ -408,8 +408,13 @@ package logqlengine
 //@ iface go.opentelemetry.io/otel/trace.Span.SetAttributes
 //@   modifies nothing
 
+// The storage is asked for [start, end]; an instant query looks back from its start (the window
+// end keeps its place), and the entry iterator applies the caller's limit.
 //@ func (*Engine).selectLogs
+//@   capture sq = call(e.querier.SelectLogs, 0)
 //@   modifies *, opened(), holds(*)
+//@   ensures[requested-window] sq_called ==> sq_a2 == params.End && sq_a1 == ite(params.Instant, addDuration(params.Start, old(e.lookbackDuration)), params.Start)
+//@   ensures[limit-and-source] ret1 == nil ==> ret0.limit == params.Limit && ret0.entries == 0 && sq_called && same(ret0.iter, sq_r0)
 //@   ensures[owns-what-it-opened] ret1 == nil ==> ret0 != nil && opened() == old(opened()) + holds(ret0.iter) && holds(ret0.iter) >= 0
 //@   ensures[nothing-left-open-on-error] ret1 != nil ==> opened() == old(opened())
 
@@ -691,10 +696,20 @@ package logqlengine
 // (pdata containers are dependencies: their methods do not touch the program heap).
 //@ func parseValue
 //@   modifies nothing
+// Array elements / object members: a null (or a failed) element is skipped, never copied: the
+// zero pdata value must not reach CopyTo (it would be dereferenced there).
 //@ func parseValue$1
+//@   capture pv = call(parseValue, 0)
+//@   capture ct = call(elem.CopyTo, 0)
 //@   modifies nothing
+//@   ensures[only-decoded-elements-are-copied] ct_called ==> pv_called && pv_r1 && pv_r2 == nil
+//@   ensures[decode-error-surfaces] pv_r2 != nil ==> ret0 != nil
 //@ func parseValue$2
+//@   capture pv = call(parseValue, 0)
+//@   capture ct = call(elem.CopyTo, 0)
 //@   modifies nothing
+//@   ensures[only-decoded-members-are-copied] ct_called ==> pv_called && pv_r1 && pv_r2 == nil
+//@   ensures[decode-error-surfaces] pv_r2 != nil ==> ret0 != nil
 
 // The default build of decodeStr views the string's bytes through package unsafe (no copy);
 // its frame is assumed, not verified: unsafe code is outside the subset.
@@ -925,15 +940,27 @@ package logqlengine
 
 //@ scope drop.go
 
+// drop l1, l2, m1="v", ...: listed names go to the name set; every matcher compares the whole label
+// value (label semantics, not substring search) and is filed under its label.
 //@ func buildDropLabels
+//@   capture bm = call(buildStringMatcher, 0)
 //@   loop 0 invariant e != nil && e.drop != nil
+//@   loop 0 body_ensures[name-listed] has(e.drop, label)
 //@   loop 1 invariant e != nil && e.matchers != nil
+//@   loop 1 body_ensures[matcher-has-label-semantics] bm_called && bm_a0 == matcher.Op && bm_a1 == matcher.Value && bm_a2 == matcher.Re && bm_a3 && bm_r1 == nil
+//@   loop 1 body_ensures[matcher-filed-under-its-label] has(e.matchers, matcher.Label) && len(e.matchers[matcher.Label]) >= 1 && same(e.matchers[matcher.Label][len(e.matchers[matcher.Label])-1], bm_r0)
 
 //@ scope keep.go
 
+// keep l1, l2, m1="v", ...: listed names go to the name set; every matcher compares the whole label
+// value (label semantics, not substring search) and is filed under its label.
 //@ func buildKeepLabels
+//@   capture bm = call(buildStringMatcher, 0)
 //@   loop 0 invariant e != nil && e.keep != nil
+//@   loop 0 body_ensures[name-listed] has(e.keep, label)
 //@   loop 1 invariant e != nil && e.matchers != nil
+//@   loop 1 body_ensures[matcher-has-label-semantics] bm_called && bm_a0 == matcher.Op && bm_a1 == matcher.Value && bm_a2 == matcher.Re && bm_a3 && bm_r1 == nil
+//@   loop 1 body_ensures[matcher-filed-under-its-label] has(e.matchers, matcher.Label) && len(e.matchers[matcher.Label]) >= 1 && same(e.matchers[matcher.Label][len(e.matchers[matcher.Label])-1], bm_r0)
 
 //@ scope aggregated_labels.go
 
